@@ -8,16 +8,17 @@
   "assumed": ["realloc (model c13_realloc in c13x.h: NULL, or a distinct constant-size block holding the old contents)"],
   "replace": [],
   "mode": "bounded",
-  "bounds": "operands of at most NDIG digits (quick 4 = 256 bit, thorough 8 = 512 bit), capacities 1..NDIG+2, every digit value, every sign, every aliasing",
-  "defs_quick": ["NDIG=4"],
-  "defs_thorough": ["NDIG=8"],
-  "unwind_quick": 9,
-  "unwind_thorough": 13,
+  "bounds": "operands of at most NDIG digits (quick 3 = 192 bit, thorough 4 = 256 bit), capacities 1..NDIG+2, every digit value, every sign, every aliasing",
+  "defs_quick": ["NDIG=3"],
+  "defs_thorough": ["NDIG=4"],
+  "unwind_quick": 10,
+  "unwind_thorough": 11,
   "object_bits": 8,
-  "cases": [{"name": "distinct", "defs": []}, {"name": "alias_ca", "defs": ["ALIAS_CA=1"]}, {"name": "alias_cb", "defs": ["ALIAS_CB=1"]},
-            {"name": "alias_ab", "defs": ["ALIAS_AB=1"]}, {"name": "alias_all", "defs": ["ALIAS_ALL=1"]}],
+  "solver": "cadical",
+  "cases": [{"name": "distinct", "defs": []}, {"name": "alias_ca", "defs": ["ALIAS_CA=1"]}, {"name": "alias_cb", "defs": ["ALIAS_CB=1"], "tier": "thorough"},
+            {"name": "alias_ab", "defs": ["ALIAS_AB=1"], "tier": "thorough"}, {"name": "alias_all", "defs": ["ALIAS_ALL=1"], "tier": "thorough"}],
   "native_replay": true,
-  "timeout": 600
+  "timeout": 900
 }
 @*/
 /* C13.add_exact  val(c) == val(a + b) as mathematical integers (wide two's complement spec),
